@@ -29,6 +29,14 @@ def step (st : St) (toks : List String) : St × String :=
         pure (showRatList scores)
       (st, r.getD "bad-op")
     | none => (st, "bad-op")
+  | "dmax" :: rest =>
+    let r : Option String := do
+      let o ← kv rest "ord"
+      let ord ← (if o = "1" then some Ord.l1 else if o = "inf" then some Ord.linf else none)
+      let lo ← (kv rest "lo") >>= parseRatList
+      let hi ← (kv rest "hi") >>= parseRatList
+      pure (showRat (defaultDistMax ord lo hi))
+    (st, r.getD "bad-op")
   | _ => (st, "bad-op")
 
 end Pyribs.CqdDrv
